@@ -37,6 +37,7 @@ FAMILIES = {
     "C17": [("mixed", 1500, 30000), ("configs", 800, 16000)],
     "C19": [("cap", 1500, 30000)],
 }
+REFINEMENT = ["Refines", "FramesAgree", "CountsAgree"]
 LIVENESS = {"C03": ("opt", 400, 4000), "C04": ("mixed", 400, 4000)}
 
 
@@ -74,14 +75,18 @@ def run_mc(prop: str, tier: str, seed: int):
     res = {"states": 0, "transitions": 0, "problems": 0, "violated": [], "per_family": {}}
     with Scratch("mc") as tmp:
         cfg = tmp / f"MC_{prop}.cfg"
-        cfg.write_text("SPECIFICATION Spec\nCHECK_DEADLOCK FALSE\nINVARIANT TypeOK\n"
-                       + "".join(f"INVARIANT {i}\n" for i in INVARIANTS[prop]))
+        # spec/MechRefines.tla = NucsMech + the abstract state of NucsAbs stepped along: besides the invariants of the
+        # property, EVERY clause of Layer A must hold on every step of the mechanism (refinement NucsMech => NucsAbs)
+        cfg.write_text("SPECIFICATION RSpec\nCHECK_DEADLOCK FALSE\nINVARIANT TypeOK\n"
+                       + "".join(f"INVARIANT {i}\n" for i in INVARIANTS[prop] + REFINEMENT))
         for fam, nq, nt in FAMILIES[prop]:
             f, n = gen_family(tmp, fam, nq if tier == "quick" else nt, seed)
-            r = run_tlc("NucsMech", str(cfg), env={"FAMILY": str(f)}, workers=NCPU, timeout=3000, scratch=tmp)
+            r = run_tlc("MechRefines", str(cfg), env={"FAMILY": str(f)}, workers=NCPU, timeout=3000, scratch=tmp)
             bad = _violated(r.out)
             if r.error and not bad:
-                raise Machinery(f"TLC failed on NucsMech/{fam}: {r.error}")
+                raise Machinery(f"TLC failed on MechRefines/{fam}: {r.error}")
+            if "Refines" in bad:
+                res["clauses"] = sorted(set(re.findall(r'"(C\d\d:[^"]+|XX:[^"]+)"', "".join(re.findall(r"^/\\ bad = (\{.*\})$", r.out, re.M)))))
             res["states"] += r.distinct
             res["transitions"] += r.generated
             res["problems"] += n
@@ -109,7 +114,9 @@ def run_mc(prop: str, tier: str, seed: int):
 def report_mc(rep, prop, tier, seed):
     r = run_mc(prop, tier, seed)
     rep.add(states=r["states"], transitions=r["transitions"])
-    rep.cov["model_checking"] = {"spec": "spec/NucsMech.tla", "invariants": INVARIANTS[prop] + (
+    rep.cov["model_checking"] = {"spec": "spec/NucsMech.tla + spec/MechRefines.tla (refinement NucsMech => NucsAbs: every "
+                                         "clause of Layer A holds on every step of the mechanism)",
+                                 "invariants": INVARIANTS[prop] + REFINEMENT + (
         ["Terminates (WF_vars(Next))"] if prop in LIVENESS else []), "families": r["per_family"],
         "problems": r["problems"], "exhaustive_within_family": True}
     for inv, fam, D in r["violated"]:
@@ -133,6 +140,8 @@ def report_mc(rep, prop, tier, seed):
                               "algs": sorted({c["alg"] for c in item["P"]["props"]})},
                              f"{clause} (model counterexample of {inv} confirmed on the real engine)")
         if not confirmed:
+            if inv == "Refines":
+                inv = "Refines " + ",".join(r.get("clauses", []))
             rep.notes.append(f"DRIFT: NucsMech violates {inv} on family {fam} but the real engine passes Layer A on "
                              f"that problem: {json.dumps(D)[:500]}")
             print(f"DRIFT layer=mech invariant={inv} family={fam}: the mechanism model admits a counterexample the "
